@@ -28,7 +28,9 @@ def gen_cases(ctx, n):
                 if mode == "std":
                     w2, h2 = max(4, (w2 + 3) // 4 * 4), max(4, (h2 + 3) // 4 * 4)
                 w, h = w2, h2
-            b, d = picgen.gen_picture(rng, mode, pt, w, h, stuffing_p=rng.choice([0, 0, 15]), extra=[] if rng.below(3) else None)
+            # standard mode: half of the predicted pictures do not retransmit format and modes (PLUSPTYPE with UFEP = 000)
+            plus = {"ufep": 0} if (mode == "std" and pt == "P" and rng.below(2)) else None
+            b, d = picgen.gen_picture(rng, mode, pt, w, h, stuffing_p=rng.choice([0, 0, 15]), extra=[] if rng.below(3) else None, plus=plus)
             pics.append(b)
             stream.extend(b)
             # fewer than eight zero bits up to the next byte boundary
